@@ -1172,3 +1172,105 @@ def vc_parse_patch_refuses_unsafe(fns, variants, work):
     eng.seeds = seeds
     eng.run()
     return summarize(eng, found, {"push_sites_reached": pushes[0]}, work, "c19w", witness_ok=pushes[0] > 0, witness_note="no push of a file patch reached")
+
+
+# ------------------------------------------------------------------------------------------ C17 (more)
+def vc_goal_refused(fns, variants, work):
+    """cmd_push: a named goal that is unknown, or that is already applied (its index lies before first_patch), never reaches
+    the slicing of the series: it is refused with Err."""
+    fn = find_fn(fns, r"^cmd_push$")
+    found, reached = [], [0]
+
+    def after_call(eng, st, bb, site, stmt, dst, callee, args, argv):
+        if re.search(r"as Iterator>::position::<", callee) and dst:
+            dpath, _ = eng.resolve(st, dst)
+            st.store["ghost:posdisc"] = st.store.get(dpath + "#disc")
+            st.store["ghost:pos"] = st.store.get(dpath + "@Some.0")
+
+    def on_call(eng, st, bb, site, stmt, dst, callee, args, nxt):
+        if re.search(mirvc.INDEX_PAT, callee) and "Range<usize>" in callee and st.store.get("ghost:pos") is not None and "driver" not in st.ghost:
+            reached[0] += 1
+            _, rp, _ = eng.operand(st, args[1])
+            start = eng.read_path(st, rp + ".0", "usize")
+            pos, pd = st.store["ghost:pos"], st.store["ghost:posdisc"]
+            for cond, what in ((pd != 1, "a goal that is not in the series reaches the slicing of the series"),
+                               (z3.And(pd == 1, z3.ULT(pos, start)), "a goal that is already applied is not refused")):
+                ok, model = eng.feasible(st, [cond])
+                eng.record_query("%s goal" % bb, list(st.pc) + [cond])
+                if ok:
+                    found.append({"bb": bb, "stmt": stmt[:160], "what": what, "model": model_values(model, ("c_", "in_")), "trace": list(st.trace[-20:])})
+        if re.search(DRIVER_PAT, callee):
+            st.ghost = st.ghost | {"driver"}
+        return None
+
+    eng = Engine(fns, fn, variants, hooks={"on_call": on_call, "after_call": after_call})
+    eng.seeds = seeds_for(fn, False, (mirvc.INDEX_PAT,))
+    eng.run()
+    return summarize(eng, found, {"slice_sites_reached_with_named_goal": reached[0]}, work, "c17g", witness_ok=reached[0] > 0,
+                     witness_note="slicing not reached on the named-goal path")
+
+
+def vc_load_errors_before_workers(fns, variants, work):
+    """parallel::apply_patches: a patch that failed to load or parse makes the function return Err before any worker
+    (apply or save) is started."""
+    fn = find_fn(fns, r"^parallel::apply_patches$")
+    found, reached, loads = [], [0], [0]
+
+    def after_call(eng, st, bb, site, stmt, dst, callee, args, argv):
+        if "with_context::<" in callee and "Patch<" in callee and dst:
+            dpath, _ = eng.resolve(st, dst)
+            d = eng.read_path(st, dpath + "#disc", "isize")
+            n = len([k for k in st.store if k.startswith("ghost:load")])
+            st.store["ghost:load%d" % n] = d
+            loads[0] += 1
+
+    def on_call(eng, st, bb, site, stmt, dst, callee, args, nxt):
+        if "ParallelIterator>::for_each::<" in callee:
+            reached[0] += 1
+            ds = [v for k, v in st.store.items() if k.startswith("ghost:load")]
+            for d in ds:
+                ok, model = eng.feasible(st, [d != 0])
+                eng.record_query("%s workers after load error" % bb, list(st.pc) + [d != 0])
+                if ok:
+                    found.append({"bb": bb, "stmt": stmt[:160], "what": "workers are started although loading / parsing a patch failed",
+                                  "model": {}, "trace": list(st.trace[-20:])})
+                    break
+        return None
+
+    eng = Engine(fns, fn, variants, hooks={"on_call": on_call, "after_call": after_call})
+    seeds = {"_0"}
+    for bb, stmts in fn.blocks.items():
+        for s_ in stmts:
+            m = callm(s_)
+            if m and "with_context::<" in m.group(2) and "Patch<" in m.group(2) and m.group(1):
+                seeds.add(m.group(1))
+    eng.seeds = seeds
+    eng.run()
+    return summarize(eng, found, {"for_each_sites_reached": reached[0], "load_results_checked": loads[0]}, work, "c17l",
+                     witness_ok=reached[0] > 0 and loads[0] > 0, witness_note="worker start or load result not reached")
+
+
+# ------------------------------------------------------------------------------------------ C05 (more)
+def vc_rej_rollback_before_pop(fns, variants, work):
+    """rollback_and_save_rej_files: every entry that is popped from applied_patches was rolled back in memory first."""
+    fn = find_fn(fns, r"rollback_and_save_rej_files$")
+    found, pops = [], [0]
+
+    def on_call(eng, st, bb, site, stmt, dst, callee, args, nxt):
+        c = strip_generics(callee)
+        if c.endswith("]>::last") or c.endswith("::last"):
+            st.ghost = st.ghost - {"rolled"}
+        elif callee_is(callee, "rollback") and "ModifiedFiles" in callee:
+            st.ghost = st.ghost | {"rolled"}
+        elif re.search(r"Vec::pop$", c):
+            pops[0] += 1
+            if "rolled" not in st.ghost:
+                ok, _ = eng.feasible(st)
+                if ok:
+                    found.append({"bb": bb, "stmt": stmt[:160], "what": "a file patch of the rejected patch is dropped without rolling it back in memory", "model": {}, "trace": list(st.trace[-20:])})
+        return None
+
+    eng = Engine(fns, fn, variants, hooks={"on_call": on_call})
+    eng.seeds = {"_0", "_2"}
+    eng.run()
+    return summarize(eng, found, {"pop_sites_reached": pops[0]}, work, "c05p", witness_ok=pops[0] > 0, witness_note="pop not reached")
